@@ -88,7 +88,7 @@ def traced(cfg):
 def run():
     ck = Check("C11")
     tasks = []
-    fs = ck.pick([1.0, 0.9, 0.5, 0.15], [1.0, 0.95, 0.9, 0.7, 0.5, 0.3, 0.15])
+    fs = ck.pick([1.0, 0.98, 0.9, 0.5, 0.15], [1.0, 0.98, 0.95, 0.9, 0.7, 0.5, 0.3, 0.15])
     i = 0
     for f in fs:
         for er in (1.0, 2.0, 4.0):
